@@ -3,7 +3,7 @@
 use super::common::*;
 use super::{Property, Tier, Verdict};
 use crate::entropy::Rng;
-use crate::exec::{delivers, sends, Op, RunLog, Scenario};
+use crate::exec::{Consume, delivers, sends, Op, RunLog, Scenario};
 use crate::krpc::{id20, parse_values, xor};
 use crate::log::{ApiEv, Ev};
 use crate::stubs::StubCfg;
@@ -97,7 +97,21 @@ impl Property for C02 {
         sc.at(0, Op::Start { node: 0 });
         let b = sc.at(0, Op::Bootstrapped { node: 0 });
         let announce = rng.chance(3, 4);
-        let s = sc.after(b, rng.range(0, 3_000), Op::Search { node: 0, ih, announce });
+        // 1 run in 5: the caller does not read the stream to the end (fire-and-forget announce,
+        // "first peer is enough"); the lookup, and with it the announce, must be carried out all the same
+        let s = if rng.chance(1, 5) {
+            let mode = match rng.below(3) {
+                0 => Consume::DropAfterMs(*rng.pick(&[0u64, 1, 40, 300, 1_000, 1_499])),
+                1 => Consume::DropAfterItems(rng.range(1, 3) as u32),
+                _ => Consume::PollAfterMs(*rng.pick(&[500u64, 2_000, 30_000])),
+            };
+            let s = sc.after(b, rng.range(0, 3_000), Op::SearchX { node: 0, ih, announce, mode });
+            // keep the run going until the abandoned lookup has certainly finished
+            sc.after(s, 240_000, Op::Nop);
+            s
+        } else {
+            sc.after(b, rng.range(0, 3_000), Op::Search { node: 0, ih, announce })
+        };
         sc.params.insert("search_step".into(), s as i64);
         sc.params.insert("announce".into(), announce as i64);
         sc.end_ms = 900_000;
@@ -112,12 +126,13 @@ impl Property for C02 {
         let sstep = sc.param("search_step") as usize;
         let announce = sc.param("announce") != 0;
         let ih = match &sc.steps[sstep].op {
-            Op::Search { ih, .. } => *ih,
+            Op::Search { ih, .. } | Op::SearchX { ih, .. } => *ih,
             _ => return v,
         };
         let mut t_start = None;
         let mut t_end = None;
         let mut items: Vec<SocketAddr> = Vec::new();
+        let mut dropped = false;
         for e in &run.log {
             if let Ev::Api { t, step, ev } = e {
                 if *step != sstep {
@@ -127,6 +142,10 @@ impl Property for C02 {
                     ApiEv::SearchStart { .. } => t_start = Some(*t),
                     ApiEv::SearchItem { addr } => items.push(*addr),
                     ApiEv::SearchEnd => t_end = Some(*t),
+                    ApiEv::SearchDropped => {
+                        t_end = Some(*t);
+                        dropped = true;
+                    }
                     _ => {}
                 }
             }
@@ -165,7 +184,7 @@ impl Property for C02 {
         let mut expected_items: Vec<SocketAddr> = Vec::new();
         let mut answered: BTreeSet<SocketAddr> = BTreeSet::new();
         for w in delivers(&run.log) {
-            if w.dst != node || w.t < t_start || w.t > t_end {
+            if w.dst != node || w.t < t_start || (w.t > t_end && !dropped) {
                 continue;
             }
             if let Some(m) = &w.msg {
@@ -182,7 +201,22 @@ impl Property for C02 {
         let mut b = expected_items.clone();
         a.sort();
         b.sort();
-        if a != b {
+        if dropped {
+            // the caller walked away: what it did read must still come from the answers
+            v.hit("stream_dropped_by_caller");
+            let mut pool = b.clone();
+            for x in &a {
+                match pool.iter().position(|y| y == x) {
+                    Some(p) => {
+                        pool.remove(p);
+                    }
+                    None => {
+                        v.violate("C02", "stream_not_union_of_values", t_end, format!("stream yielded {x}, which no answer to this search's get_peers queries carried (that often)"));
+                        break;
+                    }
+                }
+            }
+        } else if a != b {
             let missing: Vec<_> = b.iter().filter(|x| !a.contains(x)).take(3).collect();
             let extra: Vec<_> = a.iter().filter(|x| !b.contains(x)).take(3).collect();
             v.violate("C02", "stream_not_union_of_values", t_end, format!("stream yielded {} items, answers to this search's get_peers queries carried {} values; missing e.g. {missing:?}, extra e.g. {extra:?}", a.len(), b.len()));
@@ -254,12 +288,12 @@ impl Property for C02 {
         v
     }
     fn rule(&self) -> &'static str {
-        "one real searcher (read-only or serving, announce port set or not) and 1..1000 ideal-Kademlia stubs (ids uniform / clustered around the target / clustered around the searcher), each holding 0..5 globally unique peers; a random non-empty subset as bootstrap contacts; one-way latency <= 450 ms, no message faults; the search is issued after bootstrap. non-trivial = the search sent queries and got answers; distinct = distinct order digests"
+        "one real searcher (read-only or serving, announce port set or not) and 1..1000 ideal-Kademlia stubs (ids uniform / clustered around the target / clustered around the searcher), each holding 0..5 globally unique peers; a random non-empty subset as bootstrap contacts; one-way latency <= 450 ms, no message faults; the search is issued after bootstrap; in 1 run of 5 the caller drops the stream early (at once, after 1..1499 ms, after 1..3 items) or starts reading it only 0.5..30 s later, and the announce clauses are judged all the same. non-trivial = the search sent queries and got answers; distinct = distinct order digests"
     }
     fn assumptions(&self) -> Vec<&'static str> {
         vec!["stubs answer every query with the 8 nodes truly closest to the target among all stubs (with or without themselves), per the property's premise"]
     }
     fn required_reach(&self) -> Vec<&'static str> {
-        vec!["iterative_or_endgame_queries", "more_than_20_queries", "network_smaller_than_8", "network_200_plus", "peers_yielded"]
+        vec!["iterative_or_endgame_queries", "more_than_20_queries", "network_smaller_than_8", "network_200_plus", "peers_yielded", "stream_dropped_by_caller"]
     }
 }
